@@ -55,6 +55,9 @@ def build(c, k):
     if decl:
         if c["split"] == "one":
             g.append({"k": "global", "names": decl})
+        elif c["split"] == "chain":     # GLOBAL d1 ; GLOBAL d1,d2 ; ...: names already declared stand before new ones
+            g += [{"k": "global", "names": decl[:i + 1]} for i in range(len(decl))]
+            decl = [n for i in range(len(decl)) for n in decl[:i + 1]]
         else:
             g += [{"k": "global", "names": [n]} for n in decl]
     body = [{"k": "cfg", "mn": "SECTION", "s": ".text"}]
@@ -116,6 +119,9 @@ def run(ctx, prop):
         g = []
         if decl:
             g = [{"k": "global", "names": decl}] if ci % 2 else [{"k": "global", "names": [n]} for n in decl]
+            if ci % 7 == 0 and len(decl) >= 2:      # an already declared name stands before new ones
+                g = [{"k": "global", "names": decl[:1]}, {"k": "global", "names": decl}]
+                decl = decl[:1] + decl
         st = hdr + (g if ci % 3 else []) + [{"k": "cfg", "mn": "SECTION", "s": ".text"}] + body + ([] if ci % 3 else g)
         flat = [s_ for s_ in st if not (s_["k"] == "cfg" and s_["mn"] == "FORMAT")]
         a = R.add(st, maxout=1)
